@@ -145,3 +145,56 @@ _base_scn_g = scenarios
 
 def scenarios():
     return _base_scn_g() + [get_uid(n) for n in (0, 1, 2)]
+
+
+def own_signatures(prop_name, primary):
+    """PGPKey.self_signatures / revocation_signatures: exactly the unexpired signatures of the right type issued by the right key, in order"""
+    label = 'C15/PGPKey.%s[%s]' % (prop_name, 'primary' if primary else 'subkey')
+
+    def gen(repo):
+        r = scn.Run(repo, KEY, prop_name, label)
+        ex, st = r.ex, r.st
+        ST = repo.enum_members('pgpy.constants.SignatureType')
+        want_type = {('self_signatures', True): 'DirectlyOnKey', ('self_signatures', False): 'Subkey_Binding',
+                     ('revocation_signatures', True): 'KeyRevocation', ('revocation_signatures', False): 'SubkeyRevocation'}[(prop_name, primary)]
+        me, parent = E.VObj(KEY, 'me'), E.VObj(KEY, 'parent')
+        r.hook(KEY, 'is_primary', lambda ex, st, o, a: [(st, E.VBool(primary if o.ref == 'me' else True))])
+        r.hook('pgpy.types.ParentRef', 'parent', lambda ex, st, o, a: [(st, E.VNone() if (o.ref != 'me' or primary) else parent)])
+        MYID, PARENTID = z3.Const('OWN_KEY_ID', E.BYTES), z3.Const('PARENT_KEY_ID', E.BYTES)
+        FP = 'pgpy.types.Fingerprint'
+        r.hook(KEY, 'fingerprint', lambda ex, st, o, a: [(st, E.VObj(FP, 'fp-' + o.ref))])
+        r.hook(FP, 'keyid', lambda ex, st, o, a: [(st, E.VStr(z=MYID if o.ref == 'fp-me' else PARENTID))])
+        sigs = [E.VObj(SIG, 's%d' % i) for i in range(3)]
+        r.set('me', '_signatures', ex.new_list(st, sigs))
+        typ = {x.ref: z3.Int('type_' + x.ref) for x in sigs}
+        signer = {x.ref: z3.Const('SIGNER_' + x.ref, E.BYTES) for x in sigs}
+        expired = {x.ref: z3.Bool('expired_' + x.ref) for x in sigs}
+        for x in sigs:
+            st.pc.append(z3.Or(*[typ[x.ref] == v for v in sorted(set(ST.values()))]))
+        r.hook(SIG, 'type', lambda ex, st, o, a: [(st, E.VInt(typ[o.ref], enum='pgpy.constants.SignatureType'))])
+        r.hook(SIG, 'signer', lambda ex, st, o, a: [(st, E.VStr(z=signer[o.ref]))])
+        r.hook(SIG, 'is_expired', lambda ex, st, o, a: [(st, E.VBool(expired[o.ref]))])
+        issuer = MYID if primary else PARENTID
+
+        def belongs(ref):
+            return z3.And(typ[ref] == ST[want_type], signer[ref] == issuer, z3.Not(expired[ref]))
+        for pi, (s, v) in enumerate(r.call(me, [])):
+            if isinstance(v, E.Raise):
+                r.oblige(s, 'safety(%s)/p%d' % (v.exc.split(':')[0], pi), z3.BoolVal(False), v.where)
+                continue
+            got = [x.ref for x in ex.items(v, s)] if isinstance(v, E.VList) else None
+            r.oblige(s, 'yields-signatures-of-this-key-in-order/p%d' % pi, z3.BoolVal(got is not None and got == [x.ref for x in sigs if x.ref in got]))
+            if got is None:
+                continue
+            for x in sigs:
+                r.oblige(s, '%s:reported-iff-type-%s,issued-by-%s,not-expired/p%d' % (x.ref, want_type, 'this key' if primary else 'the primary key', pi),
+                         z3.BoolVal(x.ref in got) == belongs(x.ref))
+        return r.result()
+    return Scenario(label, KEY + '.' + prop_name, gen, props=('C15', 'C17'))
+
+
+_base_scn_o = scenarios
+
+
+def scenarios():
+    return _base_scn_o() + [own_signatures(p, prim) for p in ('self_signatures', 'revocation_signatures') for prim in (True, False)]
